@@ -122,6 +122,40 @@ func genWorldA(seed uint64, tier string, prop string, prof *profile) *Tape {
 			t.Steps = append(t.Steps, Step{Op: "rep", Node: rng.IntN(n), K: 64}, Step{Op: "apply", Node: rng.IntN(n), K: 64})
 		}
 	}
+	// Directed openings for the state-transfer profile: rare conjunctions that a
+	// uniform draw reaches once in ~60 tapes. Parameters stay seeded, and the
+	// random part of the tape follows as usual.
+	if len(prof.instFaults) > 0 && n >= 3 {
+		switch rng.IntN(8) {
+		case 0:
+			// a log of 0-2 single events is compacted away, then a brand-new node
+			// (and a returning empty one) has to be brought up from the snapshot
+			t.Cfg["trailing"] = 0
+			for k := rng.IntN(3); k > 0; k-- {
+				t.Steps = append(t.Steps, Step{Op: "add", K: 1, Kind: "api", Data: "sync"})
+			}
+			t.Steps = append(t.Steps, Step{Op: "add", K: 1, Kind: "api", Data: "sync"}, Step{Op: "snap", Node: -1}, Step{Op: "join"},
+				Step{Op: "inst", Node: n, Kind: "", K: 0}, Step{Op: "add", K: 1 + rng.IntN(2), Kind: "api", Data: "sync"}, Step{Op: "agree"})
+		case 1:
+			// a transfer breaks after at least one batch and the follower is then
+			// caught up by a different leader that still holds the entries
+			victim := rng.IntN(n)
+			t.Steps = append(t.Steps, Step{Op: "add", K: 1 + rng.IntN(3), Kind: "api", Data: "sync"},
+				Step{Op: "stop", Node: victim, Kind: pick(rng, prof.stopModes)},
+				Step{Op: "add", K: 1 + rng.IntN(3), Kind: "api", Data: "sync"},
+				Step{Op: "add", K: 1, Kind: "api", Data: "sync"},
+				Step{Op: "add", K: 1 + rng.IntN(2), Kind: "api", Data: "sync"},
+				Step{Op: "snap", Node: -1},
+				Step{Op: "start", Node: victim},
+				Step{Op: "inst", Node: victim, Kind: "stream-fail", K: 1 + rng.IntN(2)},
+				Step{Op: "elect", Node: (victim + 1 + rng.IntN(n-1)) % n},
+				Step{Op: "add", K: 1, Kind: "api", Data: "sync"},
+				Step{Op: "rep", Node: victim, K: 8}, Step{Op: "rep", Node: victim, K: 8}, Step{Op: "apply", Node: victim, K: 64},
+				Step{Op: "add", K: 1 + rng.IntN(3), Kind: "api", Data: "sync"},
+				Step{Op: "rep", Node: victim, K: 8}, Step{Op: "apply", Node: victim, K: 64},
+				Step{Op: "agree"})
+		}
+	}
 	for i := 0; i < steps; i++ {
 		x := rng.IntN(total)
 		var op string
@@ -190,12 +224,14 @@ func genWorldA(seed uint64, tier string, prop string, prof *profile) *Tape {
 				Step{Op: "snap", Node: -1},
 				Step{Op: "start", Node: node},
 				Step{Op: "inst", Node: node, Kind: pick(rng, prof.instFaults), K: rng.IntN(3)})
-			switch rng.IntN(4) {
+			switch rng.IntN(6) {
 			case 0:
 				t.Steps = append(t.Steps, Step{Op: "stop", Node: node, Kind: "crash"}, Step{Op: "start", Node: node})
-			case 1:
-				t.Steps = append(t.Steps, Step{Op: "elect", Node: rng.IntN(n)})
-			case 2:
+			case 1, 2, 3:
+				// another node takes over: it may still hold the entries the
+				// follower lacks and bring it up by plain replication
+				t.Steps = append(t.Steps, Step{Op: "elect", Node: (node + 1 + rng.IntN(n-1+boolInt(n == 1))) % n})
+			case 4:
 				t.Steps = append(t.Steps, Step{Op: "inst", Node: node, Kind: "", K: 0})
 			}
 			t.Steps = append(t.Steps, Step{Op: "add", K: 1 + rng.IntN(3), Kind: "api", Data: "sync"})
@@ -760,4 +796,11 @@ func (w *worldA) authenticHyper(cv uint64) []byte {
 		return s.HyperDigest
 	}
 	return nil
+}
+
+func boolInt(b bool) int {
+	if b {
+		return 1
+	}
+	return 0
 }
